@@ -41,10 +41,11 @@ func ProfileFor(id, tier string) *Profile {
 	case "C01", "C06":
 		bump(map[string]int{"tie_reports": 25, "register_spec": 4, "create_reporter": 12, "submit_value": 40})
 		p.Witnesses = [2]int{1, 3}
-		p.LongFrac = 0.05
+		p.LongFrac = 0.12 // deposit rounds (weighted mode) closing in the same block as cycle-list rounds (weighted median)
 		p.TinyStakes = 0.4
 	case "C02":
 		p.BigGaps = 0.04
+		p.LongFrac = 0.08 // EndBlock paths that only run when several deposit rounds close in one block
 		bump(map[string]int{"gov_proposal": 3, "gov_vote": 12, "propose_dispute": 8, "vote": 10, "tie_vote": 8})
 	case "C03":
 		bump(map[string]int{"gov_proposal": 3, "gov_vote": 12, "tip": 25, "withdraw_tokens": 6, "claim_deposits": 5})
